@@ -582,7 +582,11 @@ func (ld *Layerdefs) mountOne(layer *Layerinfo) error {
 		return err
 	}
 	for _, m := range expanded {
-		if nil == ld.mounts.GetMount(m.Mount) {
+		mnt := ld.mounts.GetMount(m.Mount)
+		if nil != mnt && !ld.mounts.MountSourceIsExpected(mnt, m.Source) {
+			return fmt.Errorf("%s is already a mountpoint of something else", m.Mount)
+		}
+		if nil == mnt {
 			if !fs.Exists(m.Source) {
 				if ld.inAnyLayerDirectory(m.Source) {
 					err := fs.Mkdir(m.Source)
